@@ -426,6 +426,7 @@ def check_C10(F, tier, t0):
     guarded(R, 'X3', engine_x.rule_X3, F, R)
     guarded(R, 'X4', engine_x.rule_X4, F, R, ('parse', 'model', 'retain', 'vars', 'tablefilter'))
     front_end(R, F)
+    guarded(R, 'X9', engine_x.rule_X9, F, R)
     # the header is free_vars: it is right only if the free-variable analysis is
     E = make_engine(F)
     guarded(R, 'S var_is_free', run_S, R, E, [FRF], spec_bdd.B, False)
